@@ -121,6 +121,23 @@ theorem gather_depth2 {V} (p : Tag) (xss : List (List V)) (es : List (Ev V))
     es (by simpa [groupEvents] using h) pa pb hab sa sb
   exact List.perm_singleton.mp this.1
 
+/-- **depth parameter, any depth.** One gather step with `depth = d` fed, in any order, with the leaves of `d`
+    nested scatters of the token `t` (`leavesAt d t`, tags `t.tag ++ q` with `|q| = d`) and a size token announcing
+    their number: exactly one list tagged `t.tag` holding the leaves in row-major (numeric) order. -/
+theorem gather_depth_any {V} (d : Nat) (t : Tok (NV V)) (es : List (Ev (NV V)))
+    (h : es.Perm ((leavesAt d t).map Ev.elem ++ [Ev.size t.tag (leavesAt d t).length]))
+    (pa pb : PortId) (hab : pa ≠ pb) (sa sb : Status) :
+    (run d (es ++ [.term pa sa, .term pb sb])).out = [(t.tag, leavesAt d t)] := by
+  have := gather_groups d [(t.tag, leavesAt d t)] (by simp)
+    (by
+      intro g hg x hx
+      simp at hg; subst hg
+      obtain ⟨q, hq, hxq⟩ := leavesAt_tags d t x hx
+      rw [hxq]; exact keyOf_append d t.tag q hq)
+    (by intro g hg; simp at hg; subst hg; exact leavesAt_sorted d t)
+    es (by simpa [groupEvents] using h) pa pb hab sa sb
+  exact List.perm_singleton.mp this.1
+
 /-- **nested scatters, chained gathers.** A list of lists `xss` tagged `p` is scattered twice (elements `p.i.j`).
     The inner gather receives all leaf and inner size tokens in any order `es1`; its list tokens (tags `p.i`), in
     whatever order they were emitted, reach the outer gather together with the outer size token in any order `es2`.
